@@ -218,9 +218,11 @@ theorem store_reweight_err_iff (st : Store) (w : F64) :
   simp only [store_reweight, storeReweight]
   by_cases h : F64.le w (.fin 0) = true
   · simp [h, errStoreReweight]
-  · simp only [h, Bool.false_eq_true, if_false, iff_false, ne_eq, not_not]
+  · simp only [h, Bool.false_eq_true, if_false, iff_false, ne_eq, Classical.not_not]
     cases w with
-    | fin q => cases hr : st.reweight q with
+    | fin q =>
+      simp only []
+      cases hr : st.reweight q with
       | none => rfl
       | some r => cases r <;> rfl
     | _ => rfl
@@ -241,9 +243,10 @@ theorem store_reweight_error (st : Store) (q : Rat) (e : Store.RwErr)
   · rw [if_neg h0] at h
     split at h
     · cases h
-    · cases st <;> simp only [] at h
-      · cases hr : DStore.reweight ‹DStore› q <;> simp [hr] at h
-      · cases hr : PStore.reweight ‹PStore› q <;> simp [hr] at h
+    · cases st with
+      | d s => cases hr : DStore.reweight s q <;> simp [hr] at h
+      | sp c => simp at h
+      | pg s => cases hr : PStore.reweight s q <;> simp [hr] at h
 
 /-- the model's accepted `Reweight` is the instance's -/
 theorem store_reweight_ok (st t : Store) (q : Rat) (h : st.reweight q = some (.ok t)) :
